@@ -9,6 +9,9 @@ tie:    hand-written model AdeptModel/{Assign,Reduce}.lean <-> Array.h / FixedAr
         reduce.h: random statements on views sliced out of one allocation (shifted / reversed / transposed / strided /
         partial overlaps, padded and unpadded, row- and column-major, both default orders), the WHOLE memory image of
         every allocation (padding included) and the is_aliased() verdict compared exactly after every statement.
+        Also: A.where(mask) OP= rhs (where.h ADEPT_WHERE_OPERATOR; does not compile on the pinned tree: compile probe on every run, known
+        finding where-compound-does-not-compile, executed through the repaired macro body until it does), FixedArray.where, and
+        initializer lists as statements (oracle: listed elements stored, every other element of the target zero).
 oracle: in the harness, independent of the model: read the whole right-hand side (and the mask) through operator()
         into temporaries, then store through operator(); reductions are re-folded in Python from the element list
         read through operator().
@@ -23,7 +26,10 @@ REQUIRED = ["C04_every_node_alias_test_forwards", "C04_dataRange_sound", "C04_al
             "C04_seq_eq_par", "C04_copy_path", "C04_assign_semantics", "C04_compound_semantics", "C04_scalar_broadcast",
             "C04_where_semantics_partial", "C04_either_or_semantics_partial", "C04_fixed_semantics_partial",
             "C04_indexed_semantics", "C04_indexed_last_write_wins", "C04_indexed_compound_semantics_partial",
-            "C04_reduce_whole_def", "C04_reduce_dim_def"]
+            "C04_reduce_whole_def", "C04_reduce_dim_def",
+            "C04_where_compound_semantics_partial", "C04_where_unselected_untouched", "C04_fixed_where_semantics_partial",
+            "C04_fixed_where_compound_semantics_partial",
+            "C04_initlist_vector_semantics", "C04_initlist_vector_addr", "C04_initlist_matrix_rows", "C04_initlist_rows_zero_full_refuted"]
 REQUIRED_REFUTE = ["F25_where_semantics_full_refuted", "F38_either_or_semantics_full_refuted",
                    "F22_fixed_semantics_full_refuted", "F39_indexed_compound_semantics_full_refuted"]
 HARNESS = os.environ.get("VERIF_C04_HARNESS", os.path.join(vbuild.VERIF, "harness"))
@@ -31,6 +37,21 @@ ALLOC_GAP = 1000          # allocation k of a case lives at absolute element add
 
 
 # ------------------------------------------------------------------ build
+_probe = {}
+
+
+def where_compound_compiles():
+    """does `A.where(mask) OP= rhs` instantiate on the tree under test?  (-fsyntax-only on harness/drv_assign_probe.cpp)"""
+    if "ok" not in _probe:
+        import subprocess
+        p = subprocess.run(["g++", "-std=c++17", "-fsyntax-only", "-I" + os.path.join(vbuild.REPO, "include"),
+                            os.path.join(HARNESS, "drv_assign_probe.cpp")], stdout=subprocess.PIPE, stderr=subprocess.STDOUT, text=True)
+        _probe["ok"] = p.returncode == 0
+        errs = [l for l in p.stdout.splitlines() if "error" in l]
+        _probe["msg"] = (errs[0] if errs else p.stdout[:300])[:400]
+    return _probe["ok"]
+
+
 def build(variant):
     srcs = [os.path.join(HARNESS, "drv_assign.cpp")] + sorted(glob.glob(os.path.join(HARNESS, "drv_assign_r*.cpp")))
     hh = hashlib.sha256(b"".join(open(f, "rb").read() for f in sorted(glob.glob(os.path.join(HARNESS, "drv_assign*.h"))))).hexdigest()[:12]
@@ -40,7 +61,8 @@ def build(variant):
         opt = "-O0"
     elif variant == "avx":
         extra += ["-mavx"]
-    return vbuild.build("assign", srcs, defines=["C04_HDR=" + hh], extra=extra, opt=opt)
+    defines = ["C04_HDR=" + hh] + (["VERIF_WHERE_COMPOUND_NATIVE=1"] if where_compound_compiles() else [])
+    return vbuild.build("assign", srcs, defines=defines, extra=extra, opt=opt)
 
 
 def cpu_has(flag):
@@ -92,6 +114,10 @@ IDX_SHAPES = ["L", "add L c", "mul L L", "add na L L", "W"]
 ICMP_SHAPES = ["L", "add L c"]
 MASKS = ["gt L c", "lt L L", "ne L c", "not gt L c", "and gt L c lt L c", "ge add L L c", "B"]
 EO_MASKS = ["gt L c", "lt L L", "B"]
+WC_SHAPES = ["L", "add L L", "add L c"]      # right-hand sides of A.where(mask) OP= rhs (harness menu M_WC) besides a scalar
+FW_SHAPES = ["L", "add L c"]                 # right-hand sides of FixedArray.where(mask) = / += / *= rhs (M_FW)
+WC_OPS = ["wcadd", "wcsub", "wcmul", "wcdiv"]
+FW_OPS = ["fwhr", "fwcadd", "fwcmul", "fweo"]
 RFNS = ["sum", "mean", "product", "minval", "maxval", "norm2"]
 
 
@@ -391,6 +417,18 @@ class Gen:
 
     def gen_statement(self):
         r = self.r
+        y0 = r.random()
+        if y0 < 0.07:
+            return self.gen_where_compound()
+        if y0 < 0.10:
+            return self.gen_fixed_where()
+        if y0 < 0.15:
+            return self.gen_initlist()
+        if y0 < 0.18:
+            lv = self.pick_target()
+            shape = r.choice(FIX_SHAPES)
+            toks, leaves, hows = self.expr(shape, lv)
+            return self.stmt("asgi v%d %s" % (lv, " ".join(toks)), dict(kind="asgi", lhs=lv, leaves=leaves, hows=hows, shape=shape, toks=toks))
         x = r.random()
         if x < 0.27:
             lv = self.pick_target()
@@ -608,6 +646,94 @@ class Gen:
         else:
             self.gen_reduction()
 
+    def wrhs(self, lv, shapes, op):
+        """right-hand side of a (compound) where: scalar or one of `shapes`; division keeps to divisors that divide"""
+        r = self.r
+        if op.endswith("div"):
+            return [r.choice(["s1", "s-1"] if self.t == "d" else ["s1", "s-1", "s2", "s-2", "s3"])], [], [], "scalar"
+        if r.random() < 0.25:
+            return ["s%d" % r.randint(-4, 4)], [], [], "scalar"
+        rs = r.choice(shapes)
+        rt, rl, rh = self.expr(rs, lv)
+        return rt, rl, rh, rs
+
+    def gen_where_compound(self, lv=None, op=None, ms=None):
+        r = self.r
+        lv = self.pick_target() if lv is None else lv
+        op = op or r.choice(WC_OPS)
+        ms = ms or r.choice(EO_MASKS)
+        mt, ml, mh = self.mask(ms, lv)
+        rt, rl, rh, rs = self.wrhs(lv, WC_SHAPES, op)
+        self.stmt("%s v%d %s ; %s" % (op, lv, " ".join(mt), " ".join(rt)),
+                  dict(kind=op, lhs=lv, leaves=rl, hows=rh, mleaves=ml, mhows=mh, shape=rs, mshape=ms, toks=rt, mtoks=mt))
+
+    def gen_fixed_where(self, aid=None, op=None, ms=None):
+        r = self.r
+        if aid is None:
+            fixed = [a for a, d in self.allocs.items() if d["fixed"]]
+            if not fixed:
+                fixed = [self.views[self.new_fixed(r.choice([4, 23, 33, 234]))]["alloc"]]
+            aid = r.choice(fixed)
+        lv = self.allocs[aid]["vid"]
+        op = op or r.choice(FW_OPS)
+        ms = ms or r.choice(EO_MASKS)
+        mt, ml, mh = self.mask(ms, lv)
+        if op == "fweo":
+            if r.random() < 0.5:
+                ct, cl, ch, cs_ = ["s%d" % r.randint(-9, 9)], [], [], "scalar"
+            else:
+                cs_ = "L"; ct, cl, ch = self.expr("L", lv)
+            if r.random() < 0.5:
+                dt, dl, dh, ds = ["s%d" % r.randint(-9, 9)], [], [], "scalar"
+            else:
+                ds = "L"; dt, dl, dh = self.expr("L", lv)
+            self.stmt("fweo f%d %s ; %s ; %s" % (aid, " ".join(mt), " ".join(ct), " ".join(dt)),
+                      dict(kind="fweo", lhs=lv, leaves=cl + dl, hows=ch + dh, tleaves=cl, mleaves=ml, mhows=mh,
+                           shape=cs_ + "|" + ds, mshape=ms, toks=ct + dt, mtoks=mt))
+            return
+        rt, rl, rh, rs = self.wrhs(lv, FW_SHAPES, op)
+        self.stmt("%s f%d %s ; %s" % (op, aid, " ".join(mt), " ".join(rt)),
+                  dict(kind=op, lhs=lv, leaves=rl, hows=rh, mleaves=ml, mhows=mh, shape=rs, mshape=ms, toks=rt, mtoks=mt))
+
+    def gen_initlist(self, kind=None, fill=None):
+        """target = {x..} / {{..},{..}}: Array view of rank 1-2 (any stride / sign), FixedArray<4>, <2,3>, <3,3>, IndexedArray of rank 1.
+        fill: "full" (as many elements as the target), "short" (short rows / short vector), "rows" (fewer rows), None: random"""
+        r = self.r
+        kind = kind or r.choice(["ilst", "ilst", "ilst", "filst", "iilst"])
+        fill = fill or r.choice(["full", "short", "short", "rows"])
+        iw = None
+        if kind == "ilst":
+            lv = self.pick_target(r.choice([1, 2]))
+            if lv is None or len(self.views[lv]["dims"]) > 2:
+                return
+            d = self.views[lv]["dims"]; tgt = "v%d" % lv
+        elif kind == "filst":
+            lv = self.new_fixed(r.choice([4, 23, 33]))
+            d = self.views[lv]["dims"]; tgt = "f%d" % self.views[lv]["alloc"]
+        else:
+            pv = self.pick_target()
+            iw = self.new_iview(pv, 1)
+            if iw is None:
+                return
+            lv, d, tgt, fill = pv, self.iviews[iw]["dims"], "w%d" % iw, "full"
+        maxlen = 5 if len(d) == 1 else 4
+        if d[-1] > maxlen and (fill == "full" or kind == "iilst"):
+            if kind == "iilst":
+                return
+            fill = "short"
+        nrows = 1 if len(d) == 1 else min(d[0], 3)
+        if len(d) == 2 and (fill == "rows" or d[0] > 3):
+            nrows = r.randint(1, max(1, min(d[0] - 1, 3)))
+        rows = []
+        for i in range(nrows):
+            n = min(d[-1], maxlen)
+            if fill != "full" and not (fill == "rows" and r.random() < 0.5):
+                n = r.randint(0, n)
+            rows.append([r.randint(-9, 9) for _ in range(n)])
+        txt = "%s %s %d %s" % (kind, tgt, nrows, " ".join("%d %s" % (len(x), " ".join(map(str, x))) if x else "0" for x in rows))
+        self.stmt(" ".join(txt.split()), dict(kind=kind, lhs=lv, iw=iw, leaves=[], hows=[], shape="initlist/" + fill, toks=[],
+                                              nrows=nrows))
+
     def gen_reduction(self):
         r = self.r
         av = self.pick_target()
@@ -773,6 +899,105 @@ def special_sweep(rng, t, order, n_arrays):
     return cases
 
 
+def mask_bits(pattern, n, rng):
+    if pattern == "all":
+        return [1] * n
+    if pattern == "none":
+        return [0] * n
+    if pattern == "alt":
+        return [i % 2 for i in range(n)]
+    if pattern == "gaps":
+        # runs of selected elements separated by runs of unselected ones of varying length (the is_gap resynchronisation)
+        bits, v = [], 1
+        while len(bits) < n:
+            bits += [v] * rng.randint(1, 3); v = 1 - v
+        return bits[:n]
+    return [rng.randint(0, 1) for _ in range(n)]
+
+
+def where_compound_sweep(rng, t, order, reps):
+    """directed, every run: A.where(mask) OP= rhs for rank 1-3 x every operator x mask pattern all / none / alternating / with gaps
+    (boolArray) and masks over the target itself / another array, x right-hand side scalar / array of another allocation /
+    expression / overlapping view of the target (reversed, shifted, transposed ...); the same for FixedArray.where
+    (= / += / *= / either_or) on FixedArray<4>, <2,3>, <3,3>, <2,3,4>"""
+    cases = []
+    pats = ["all", "none", "alt", "gaps"]
+    for _ in range(reps):
+        for rank in (1, 2, 3):
+            for op in WC_OPS:
+                g = Gen(rng, t, order)
+                dims = [rng.randint(3, 7)] if rank == 1 else [rng.randint(2, 4) for _ in range(rank - 1)] + [rng.choice([3, 4, 5, 6])]
+                A = g.new_alloc(dims)
+                n = 1
+                for x in dims:
+                    n *= x
+                rng.shuffle(pats)
+                for k, pat in enumerate(pats):
+                    lv = A if k % 2 == 0 else (g.random_slice(A, rank) or A)
+                    ld = g.views[lv]["dims"]
+                    ln = 1
+                    for x in ld:
+                        ln *= x
+                    b = g.nb; g.nb += 1
+                    bits = mask_bits(pat, ln, rng)
+                    g.emit("bools %d %d %s %s" % (b, len(ld), " ".join(map(str, ld)), " ".join(map(str, bits))))
+                    g.bools[b] = (list(ld), bits)
+                    kind = ["scalar", "other", "expr", "overlap"][(k + rng.randrange(4)) % 4]
+                    if op == "wcdiv" or kind == "scalar":
+                        rt, rl, rh, rs = g.wrhs(lv, [], "wcdiv") if op == "wcdiv" else (["s%d" % rng.randint(-4, 4)], [], [], "scalar")
+                    elif kind == "other":
+                        v = g.leaves_for(None, 1, ld)[0][0]
+                        rt, rl, rh, rs = ["v%d" % v], [v], ["other"], "L"
+                    elif kind == "expr":
+                        rs = rng.choice(["add L L", "add L c"]); rt, rl, rh = g.expr(rs, lv)
+                    else:
+                        v, how = g.partner(lv, rng.choice(["reversed", "reversed1", "shifted", "transposed", "interleaved", "same"]))
+                        rt, rl, rh, rs = ["v%d" % v], [v], [how], "L"
+                    g.stmt("%s v%d b%d ; %s" % (op, lv, b, " ".join(rt)),
+                           dict(kind=op, lhs=lv, leaves=rl, hows=rh, mleaves=[], mhows=[], shape=rs, mshape="B:" + pat, toks=rt, mtoks=["b%d" % b]))
+                # masks that are comparisons: over the target itself (identical positions) and over a partner
+                g.gen_where_compound(lv=A, op=op, ms="gt L c")
+                g.gen_where_compound(lv=A, op=op, ms="lt L L")
+                cases.append(dict(type=t, order=order, ops=g.ops, stmts=g.stmts, views=g.views, allocs=g.allocs, iviews=g.iviews, idx=g.idx))
+        for fk in (4, 23, 33, 234):
+            g = Gen(rng, t, order)
+            fv = g.new_fixed(fk)
+            aid = g.views[fv]["alloc"]
+            fd = g.views[fv]["dims"]
+            fn = 1
+            for x in fd:
+                fn *= x
+            for op in FW_OPS:
+                pat = rng.choice(pats)
+                b = g.nb; g.nb += 1
+                bits = mask_bits(pat, fn, rng)
+                g.emit("bools %d %d %s %s" % (b, len(fd), " ".join(map(str, fd)), " ".join(map(str, bits))))
+                g.bools[b] = (list(fd), bits)
+                if op == "fweo":
+                    g.gen_fixed_where(aid=aid, op=op, ms=rng.choice(EO_MASKS))
+                    continue
+                v = g.leaves_for(None, 1, fd)[0][0]
+                g.stmt("%s f%d b%d ; v%d" % (op, aid, b, v),
+                       dict(kind=op, lhs=fv, leaves=[v], hows=["other"], mleaves=[], mhows=[], shape="L", mshape="B:" + pat, toks=["v%d" % v], mtoks=["b%d" % b]))
+                g.gen_fixed_where(aid=aid, op=op)
+            cases.append(dict(type=t, order=order, ops=g.ops, stmts=g.stmts, views=g.views, allocs=g.allocs, iviews=g.iviews, idx=g.idx))
+    return cases
+
+
+def initlist_sweep(rng, t, order, reps):
+    """directed, every run: every target kind x full / short rows / fewer rows"""
+    cases = []
+    for _ in range(reps):
+        for kind in ("ilst", "filst", "iilst"):
+            g = Gen(rng, t, order)
+            g.new_alloc([rng.randint(2, 4), rng.randint(2, 4)])
+            g.new_alloc([rng.randint(2, 5)])
+            for fill in ("full", "short", "rows", "short", "rows"):
+                g.gen_initlist(kind, fill)
+            cases.append(dict(type=t, order=order, ops=g.ops, stmts=g.stmts, views=g.views, allocs=g.allocs, iviews=g.iviews, idx=g.idx))
+    return cases
+
+
 def packet_sweep(rng, t, order, n_arrays):
     """statements whose innermost dimension is long enough for the packet (SIMD) loops of assign_expression_ and
     reduce_inactive, on views that start at every offset 0..3 from the (aligned) allocation and have every length 4..13:
@@ -915,7 +1140,9 @@ def py_reduce(kind, fn, dims, el, meta_op, t):
     raise ValueError(kind)
 
 
-STMT_KINDS = ("asg", "asge", "cadd", "csub", "cmul", "cdiv", "sca", "whr", "weo", "iasg", "icadd", "icsub", "icmul", "isca", "fasg", "fcadd", "fcmul")
+STMT_KINDS = ("asg", "asge", "asgi", "cadd", "csub", "cmul", "cdiv", "sca", "whr", "weo", "iasg", "icadd", "icsub", "icmul", "isca", "fasg", "fcadd", "fcmul",
+              "wcadd", "wcsub", "wcmul", "wcdiv", "fwhr", "fwcadd", "fwcmul", "fweo", "ilst", "filst", "iilst")
+FIXED_KINDS = ("fasg", "fcadd", "fcmul", "fwhr", "fwcadd", "fwcmul", "fweo", "filst")
 RED_KINDS = ("red", "redd", "redb", "reddb", "find", "minloc", "maxloc", "dot")
 
 
@@ -975,8 +1202,12 @@ def model_text(ops, il):
         elif k in STMT_KINDS or k in RED_KINDS:
             if ans.startswith("hazard") or ans.startswith("bad-op") or ans.startswith("EXC"):
                 continue
-            if k in ("fasg", "fcadd", "fcmul"):
+            if k in FIXED_KINDS:
                 op = "%s v%d %s" % (k, fixed_vid[int(w[1][1:])], " ".join(w[2:]))
+            if k == "asgi":
+                # Array::assign_inactive(e) on a passive array: alias test, temporary (filled by assign_inactive again), then
+                # assign_expression_ — the model's `assign`
+                op = "asg " + " ".join(w[1:])
             if k == "asge":
                 # `lhs = eval(e)`: an rvalue Array on the right.  eval() has evaluated the whole of e into a temporary before
                 # anything is stored, whatever noalias() wrappers e contains: the meaning is that of `lhs = e` without them
@@ -1014,7 +1245,7 @@ def classify(meta, views, iviews, idxs):
         if c == tcells:
             return "identical"
         return "overlap"
-    f = {"tcells": tcells, "repeated_target": len(tset) != len(tcells)}
+    f = {"tcells": tcells, "repeated_target": len(tset) != len(tcells), "tdims": list(L[1])}
     f["leaf_rel"] = [rel(v) for v in meta.get("leaves", [])]
     f["mask_rel"] = [rel(v) for v in meta.get("mleaves", [])]
     f["true_rel"] = [rel(v) for v in meta.get("tleaves", [])]
@@ -1060,13 +1291,30 @@ def noalias_exempt(meta, facts):
 def signature(meta, facts):
     """signature of a known open finding this failing statement belongs to, or None"""
     k = meta["kind"]
-    if k == "whr" and "overlap" in facts.get("mask_rel", []):
+    if k in ("whr", "wcadd", "wcsub", "wcmul", "wcdiv") and "overlap" in facts.get("mask_rel", []):
         return "where-mask-aliases-target"
+    if k in ("fwhr", "fwcadd", "fwcmul"):
+        # FixedArray::assign_conditional: no alias test (F-22) and a lazily evaluated mask (F-25)
+        if "overlap" in facts.get("leaf_rel", []):
+            return "fixedarray-target-no-alias-check"
+        if "overlap" in facts.get("mask_rel", []):
+            return "where-mask-aliases-target"
+    if k == "fweo":
+        if any(r != "disjoint" for r in facts.get("mask_rel", [])) or any(r != "disjoint" for r in facts.get("true_rel", [])):
+            return "either-or-operand-aliases-target"
+        if "overlap" in facts.get("leaf_rel", []):
+            return "fixedarray-target-no-alias-check"
     if k == "weo":
         if any(r != "disjoint" for r in facts.get("mask_rel", [])) or any(r != "disjoint" for r in facts.get("true_rel", [])):
             return "either-or-operand-aliases-target"
     if k in ("fasg", "fcadd", "fcmul") and "overlap" in facts.get("leaf_rel", []):
         return "fixedarray-target-no-alias-check"
+    if k == "ilst":
+        # fewer rows in the list than the (rank-2, non-empty) Array target has
+        nrows = meta.get("nrows") or (int(meta["toks"][0]) if meta.get("toks") else None)
+        td = facts.get("tdims", [])
+        if nrows is not None and len(td) == 2 and nrows < td[0]:
+            return "initlist-fewer-rows-not-zeroed"
     if k in ("icadd", "icsub", "icmul") and facts.get("repeated_target"):
         return "indexed-compound-repeated-index"
     return None
@@ -1267,6 +1515,9 @@ BUILTIN_CORPUS = [
     ("F-38 either_or: mask re-evaluated after the first pass", "d", ["reset", "alloc 0 0 1 2 def", "fill 0 1 5", "weo v0 gt v0 c3 ; s0 ; s10", "dump 0"], "either-or-operand-aliases-target"),
     ("F-38 either_or: true branch evaluated after the false branch was stored", "d", ["reset", "alloc 0 0 1 4 def", "fill 0 1 2 3 4", "view 1 0 s3,0,-1", "bools 0 1 4 1 1 0 0", "weo v0 b0 ; v1 ; s0", "dump 0"], "either-or-operand-aliases-target"),
     ("F-22 FixedArray target, reversed right-hand side", "d", ["reset", "falloc 0 0 4", "fill 0 1 2 3 4", "view 1 0 s3,0,-1", "fasg f0 v1", "dump 0"], "fixedarray-target-no-alias-check"),
+    ("initializer list with fewer rows than the matrix: the other rows keep their values", "d", ["reset", "alloc 0 0 2 3 2 def", "fill 0 9 9 9 9 9 9", "ilst v0 1 2 1 2", "dump 0"], "initlist-fewer-rows-not-zeroed"),
+    ("where-compound: rhs is the reversed target, mask over the target at identical positions", "i", ["reset", "alloc 0 0 1 5 def", "fill 0 0 1 36 48 60", "view 1 0 s4,0,-1", "wcadd v0 gt v0 c2 ; v1", "dump 0"], None),
+    ("where-compound with gaps in the mask on a FixedArray", "d", ["reset", "falloc 0 0 4", "fill 0 1 2 3 4", "alloc 1 1 1 4 def", "fill 1 5 6 7 8", "bools 0 1 4 1 0 0 1", "fwcadd f0 b0 ; v1", "dump 0"], None),
     ("F-39 indexed compound assignment with a repeated index", "d", ["reset", "alloc 0 0 1 3 def", "fill 0 10 20 30", "alloc 1 1 1 2 def", "fill 1 1 2", "idx 0 2 1 1", "iview 0 0 i0", "icadd w0 v1", "dump 0"], "indexed-compound-repeated-index"),
 ]
 
@@ -1292,11 +1543,11 @@ def corpus_case(name, t, ops, expect):
             else:
                 meta["iw"] = int(w[1][1:]); meta["lhs"] = c["iviews"][meta["iw"]]["view"]
             rest = w[2:]
-            if w[0] in ("whr", "weo"):
+            if w[0] in ("whr", "weo", "fweo", "fwhr", "fwcadd", "fwcmul", "wcadd", "wcsub", "wcmul", "wcdiv"):
                 parts = " ".join(rest).split(" ; ")
                 meta["mleaves"] = [int(x[1:]) for x in parts[0].split() if x[0] == "v" and x[1:].isdigit()]
                 meta["leaves"] = [int(x[1:]) for p in parts[1:] for x in p.split() if x[0] == "v" and x[1:].isdigit()]
-                if w[0] == "weo":
+                if w[0] in ("weo", "fweo"):
                     meta["tleaves"] = [int(x[1:]) for x in parts[1].split() if x[0] == "v" and x[1:].isdigit()]
             else:
                 meta["leaves"] = [int(x[1:]) for x in rest if x[0] == "v" and x[1:].isdigit()]
@@ -1327,10 +1578,14 @@ def account(ctx, res, label, t):
             continue
         facts = classify(m, res["views"], c.get("iviews", {}), c.get("idx", {})) if m.get("lhs") in res["views"] else {}
         rels = facts.get("leaf_rel", []) + facts.get("mask_rel", []) + facts.get("w_rel", [])
-        dist = ctx.notes.setdefault("distribution", dict(kinds={}, ranks={}, overlap={}, how={}, signs={}, alias_flag={}, layouts={}, types={}))
+        dist = ctx.notes.setdefault("distribution", dict(kinds={}, ranks={}, overlap={}, how={}, signs={}, alias_flag={}, layouts={}, types={}, where_masks={}, where_rhs={}, initlist={}))
         def inc(k, v):
             dist[k][v] = dist[k].get(v, 0) + 1
         inc("kinds", m["kind"]); inc("types", t)
+        if m["kind"] in WC_OPS or m["kind"] in FW_OPS:
+            inc("where_masks", m.get("mshape", "?")); inc("where_rhs", m.get("shape", "?"))
+        if m["kind"] in ("ilst", "filst", "iilst"):
+            inc("initlist", "%s:%s" % (m["kind"], m.get("shape", "?")))
         if m.get("lhs") in res["views"]:
             inc("ranks", str(len(res["views"][m["lhs"]][1])))
             aid = res["views"][m["lhs"]][3]
@@ -1348,7 +1603,7 @@ def account(ctx, res, label, t):
             inc("signs", facts["signs"])
         if " a=" in ans:
             inc("alias_flag", ans.split(" a=")[1][0])
-        nontrivial = any(r_ != "disjoint" for r_ in rels) or m["kind"] in ("sca", "isca") or m["kind"] in RED_KINDS
+        nontrivial = any(r_ != "disjoint" for r_ in rels) or m["kind"] in ("sca", "isca", "ilst", "filst", "iilst") or m["kind"] in RED_KINDS
         ctx.count_case((label, t, c.get("order"), tuple(c["ops"][:m["op"] + 1])), nontrivial=nontrivial,
                        sample=dict(build=label, type=t, statement=c["ops"][m["op"]], answer=ans[:120], relations=rels))
 
@@ -1370,6 +1625,15 @@ def run(ctx, replay):
     with ThreadPoolExecutor(max_workers=len(variants)) as ex:
         exes = list(ex.map(build, variants))
     ctx.pending = []
+    native = where_compound_compiles()
+    ctx.notes["where_compound"] = ("native operators (A.where(mask) OP= rhs compiles)" if native else
+                                   "A.where(mask) OP= rhs does NOT compile on this tree (%s): executed through the macro body with the "
+                                   "operand repaired, A.assign_conditional(mask, noalias(A) OP rhs)" % _probe.get("msg", ""))
+    if not native:
+        ctx.violation("A.where(mask) += rhs (and -=, *=, /=) cannot be instantiated: where.h ADEPT_WHERE_OPERATOR builds noalias(*this) OP c "
+                      "with *this the Where proxy instead of the array: " + _probe.get("msg", ""),
+                      dict(kind="compile", signature="where-compound-does-not-compile", source="harness/drv_assign_probe.cpp",
+                           compiler_says=_probe.get("msg", ""), ops=[]))
     if replay:
         r = json.load(open(replay))
         t = r.get("type", "d")
@@ -1417,6 +1681,18 @@ def run(ctx, replay):
                 for res in results:
                     report_case(ctx, res, label, t, exe)
                     account(ctx, res, label, t)
+        # compound conditional assignment and FixedArray.where: directed sweep
+        for t in ("d", "i"):
+            for order in (("r",) if ctx.tier == "quick" else ("r", "c")):
+                results = run_cases(ctx, exe, label, t, where_compound_sweep(ctx.rng, t, order, 1 if ctx.tier == "quick" else 4))
+                for res in results:
+                    report_case(ctx, res, label, t, exe)
+                    account(ctx, res, label, t)
+        for t in ("d", "i"):
+            results = run_cases(ctx, exe, label, t, initlist_sweep(ctx.rng, t, "r", 2 if ctx.tier == "quick" else 8))
+            for res in results:
+                report_case(ctx, res, label, t, exe)
+                account(ctx, res, label, t)
         # packet-loop sweep: every start offset x every inner length around the packet boundaries
         for t in ("d", "i"):
             for order in (("r",) if ctx.tier == "quick" else ("r", "c")):
@@ -1449,6 +1725,11 @@ def run(ctx, replay):
                        "reversed (all / one dimension), transposed in place, shifted / interleaved / sibling windows of the same allocation, or "
                        "views of another allocation; statements = / += -= *= /= / scalar / where / either_or / IndexedArray = op= / FixedArray = op= "
                        "from a menu of 17 expression shapes (incl. noalias, spread, outer_product, IndexedArray operands) and 7 mask shapes, and "
+                       "compound conditional assignment A.where(mask) += -= *= /= rhs (3 mask shapes x scalar / L / add L L / add L c), FixedArray.where "
+                       "= / += / *= / either_or, initializer lists v = {..} / M = {{..},..} on Array views, FixedArray and IndexedArray targets (full, "
+                       "short rows, fewer rows); directed sweeps in every run: where-compound rank 1-3 x 4 operators x boolArray masks all / none / "
+                       "alternating / with gaps x rhs scalar / other array / expression / overlapping view of the target (+ comparison masks over the "
+                       "target and a partner), FixedArray.where on the four FixedArray kinds, initializer lists on every target kind x fill; and "
                        "whole / per-dimension reductions, find, minloc, maxloc, dot_product.  Compared per statement: is_aliased() verdict and the "
                        "whole image of every allocation vs the Lean model; oracle verdict of the harness.  non-trivial = some operand overlaps the "
                        "target (or scalar / reduction); distinct = different (build, type, order, op prefix).")
